@@ -320,7 +320,9 @@ def m_amp_in_attr(rng, doc):
 
 
 def m_quote_in_attr(rng, doc):
-    return _mut_attval(rng, doc, lambda a: _ins(rng, a[5], (0x22 if a[4] else 0x27, "l")))
+    # the delimiter quote followed by a name character at the END of the value: `a="v"x"` can never be well-formed
+    # (a quote inserted at a random position can leave a well-formed tag behind)
+    return _mut_attval(rng, doc, lambda a: list(a[5]) + [(0x22 if a[4] else 0x27, "l"), (0x78, "l")])
 
 
 def m_ctrl_in_attr(rng, doc):
